@@ -8,15 +8,55 @@ import concurrent.futures as cf
 import sys
 import time
 
-from .mutate import VariantError, run_check
-from .report import AnalysisError
+import json
+import os
+import shutil
+import subprocess
+
+from .mutate import PY, VariantError, run_check
+from .report import VERIF, AnalysisError
 from .variants import VARIANTS
+
+
+def seeded_variants():
+    """The confirmed changes written by independent sub-agents (seeded/<id>/patch.diff) are breaking variants too,
+    except the ones recorded as not decided by the static rules (meta.json checks.own_property_check.verdict)."""
+    out = []
+    for d in sorted((VERIF / "seeded").glob("*")):
+        mp, pp = d / "meta.json", d / "patch.diff"
+        if not (mp.exists() and pp.exists()):
+            continue
+        meta = json.loads(mp.read_text())
+        if meta.get("checks", {}).get("own_property_check", {}).get("verdict") != "detected":
+            continue
+        out.append(dict(id="S-" + meta["id"], prop=meta["property"], kind="break", what="seeded: " + meta["id"], patch=str(pp), edits=[]))
+    return out
+
+
+def run_patch(prop, patch):
+    from .try_patch import scratch_with_patch
+    try:
+        tmp = scratch_with_patch(patch)
+    except RuntimeError as e:
+        raise VariantError(str(e)[:200])
+    try:
+        env = dict(os.environ)
+        env["SA_REPO"] = str(tmp)
+        env["SA_OUT"] = str(tmp / "evidence")
+        env.pop("VERIF_TIER", None)
+        p = subprocess.run([PY, "-B", "-m", "sa.run", prop, "quick"], cwd=str(VERIF), env=env, capture_output=True, text=True, timeout=300)
+        return p.returncode, p.stdout + p.stderr
+    finally:
+        shutil.rmtree(tmp, ignore_errors=True)
 
 
 def run_variant(v):
     t0 = time.time()
     try:
-        code, out = run_check(v["prop"], v["edits"])
+        if v.get("patch"):
+            code, out = run_patch(v["prop"], v["patch"])
+        else:
+            code, out = run_check(v["prop"], v["edits"])
     except VariantError as e:
         return v, "skipped", str(e), 0.0
     dt = time.time() - t0
@@ -39,7 +79,7 @@ def run_variant(v):
 
 
 def run_all(props=None, jobs=16):
-    vs = [v for v in VARIANTS if props is None or v["prop"] in props]
+    vs = [v for v in VARIANTS + seeded_variants() if props is None or v["prop"] in props]
     with cf.ThreadPoolExecutor(max_workers=jobs) as ex:
         return list(ex.map(run_variant, vs))
 
